@@ -5,8 +5,8 @@
    without remove_silence) over the rows in INPUT order; covers o mt lo n r c = note n occupies
    (row r, frame c); cell_spec = binarised maximum velocity of the covering notes, 0 if none. *)
 From PV Require Import Lib.Base Lib.Round Model.C13 Proofs.C13_lib Proofs.C13 Proofs.C13_pc Proofs.C13_decode.
-From PV Require Import Proofs.C13_round Proofs.C13_more Proofs.C13_scan.
-From Coq Require Import QArith Qround Permutation.
+From PV Require Import Proofs.C13_round Proofs.C13_more Proofs.C13_scan Model.C13_Api Proofs.C13_api.
+From Coq Require Import QArith Qround Permutation Sorted.
 #[local] Open Scope Z_scope.
 
 (* O2/O3: every cell inside the roll holds the specification's value, for all note lists and options *)
@@ -286,3 +286,147 @@ Theorem notearray_scan_agrees : forall rows cols m td,
   end.
 Proof. exact notearray_scan_perm. Qed.
 Print Assumptions notearray_scan_agrees.
+
+(* ------------------------------------------------------------------------------------------------ *)
+(* glue around the rasteriser (Proofs/C13_api.v) *)
+
+(* unit inference: the unit taken is present in the array and no unit of the array ranks before it
+   (beat, quarter, div, sec, tick); no unit is found only when the array has none *)
+Theorem unit_inference_priority : forall us,
+  match infer_unit us with
+  | Some u => In u us /\ forall u', In u' us -> unit_rank u <= unit_rank u'
+  | None => us = []
+  end.
+Proof. exact infer_unit_lemma. Qed.
+Print Assumptions unit_inference_priority.
+
+(* drum filtering: with a channel field and remove_drums the result is that of the array without its
+   channel-9 rows; in every other case the channel values play no part *)
+Theorem drum_rows_invisible : forall c us hv rows, c_remove_drums c = true ->
+  compute_pianoroll c (us, hv, true, rows) = compute_pianoroll c (us, hv, false, filter not_drum rows).
+Proof. exact drums_removed_lemma. Qed.
+Print Assumptions drum_rows_invisible.
+
+Theorem drum_rows_kept_otherwise : forall c us hv hc rows, hc && c_remove_drums c = false ->
+  compute_pianoroll c (us, hv, hc, rows) = compute_pianoroll c (us, hv, false, rows).
+Proof. exact drums_kept_lemma. Qed.
+Print Assumptions drum_rows_kept_otherwise.
+
+(* "1 without velocities": an array without velocity field gives a roll of zeros and ones *)
+Theorem no_velocity_cells_01 : forall c us hc rows R, compute_pianoroll c (us, false, hc, rows) = Some R ->
+  forall r j, 0 <= r < r_rows R -> cell_at (r_cells R) r j = 0 \/ cell_at (r_cells R) r j = 1.
+Proof. exact no_velocity_lemma. Qed.
+Print Assumptions no_velocity_cells_01.
+
+(* the frames of a note, mode by mode: its onset frame only in onset mode; without its last frame, but
+   never less than one, with note separation; else onset frame .. onset frame + duration frames *)
+Theorem frames_by_mode : forall o mt lo n r c,
+  covers o mt lo n r c = true <->
+  r = row_full o lo n /\
+  (if o_onset_only o then c = fr_on o mt n
+   else if o_note_sep o then fr_on o mt n <= c < Z.max (fr_on o mt n + 1) (fr_on o mt n + fr_dur o n - 1)
+   else fr_on o mt n <= c < fr_on o mt n + fr_dur o n).
+Proof. exact covers_by_mode_lemma. Qed.
+Print Assumptions frames_by_mode.
+
+Theorem duration_frames : forall o n,
+  fr_dur o n = Z.max 1 (round_half_even (inject_Z (o_time_div o) * n_dur n)) /\ 1 <= fr_dur o n.
+Proof. exact fr_dur_lemma. Qed.
+Print Assumptions duration_frames.
+
+(* no valid array is refused: at least one note, no negative duration, pitches 0..127 when no pitch
+   margin is given, a positive resolution, a margin >= 0, and end_time (if given) not before the last offset *)
+Theorem accepts_every_valid_array : forall o ns, valid_input o ns ->
+  (forall e l, o_end_time o = Some e -> last_off o ns l ->
+     (inject_Z l <= (e - spec_min_time o ns) * inject_Z (o_time_div o) + inject_Z (o_time_margin o * o_time_div o))%Q) ->
+  exists R, make_pianoroll o ns = Some R.
+Proof. exact accepts_valid_lemma. Qed.
+Print Assumptions accepts_every_valid_array.
+
+(* sparse assembly: scipy ADDS the entries handed over for one position; on the stored cells of a roll
+   (distinct positions) that sum is the stored value *)
+Theorem sparse_assembly_is_lookup : forall o ns R, make_pianoroll o ns = Some R ->
+  forall r c, sparse_sum (r_cells R) r c = cell_at (r_cells R) r c.
+Proof. exact assembled_roll_lemma. Qed.
+Print Assumptions sparse_assembly_is_lookup.
+
+(* instance: two colliding entries are summed by the constructor, the dictionary keeps the maximum *)
+Theorem sparse_sum_adds_duplicates : sparse_sum [(60, 0, 40); (60, 0, 90)] 60 0 = 130 /\
+  cell_at (fill [(60, 0, 40); (60, 0, 90)]) 60 0 = 90.
+Proof. exact sparse_sum_adds_lemma. Qed.
+Print Assumptions sparse_sum_adds_duplicates.
+
+(* the round trip with a time margin: onsets come back counted from (time origin - margin) *)
+Theorem roundtrip_with_time_margin : forall o ns R,
+  make_pianoroll o ns = Some R ->
+  o_binary o = false -> o_onset_only o = false -> o_note_sep o = false ->
+  o_pitch_margin o <= -1 -> 0 < o_time_div o ->
+  (forall n, In n ns -> grid_aligned (o_time_div o) (spec_min_time o ns) n /\ n_vel n <> 0 /\
+                        (o_piano_range o = true -> 21 <= n_pitch n <= 108)) ->
+  non_touching o (spec_min_time o ns) (lowest_pitch o ns) ns ->
+  exists out ns', pianoroll_to_notearray (r_rows R) (r_cols R) (r_cells R) (o_time_div o) = Some out /\
+    Permutation ns ns' /\ Forall2 (recovered (spec_min_time o ns - inject_Z (o_time_margin o))) out ns'.
+Proof. exact roundtrip_margin_lemma. Qed.
+Print Assumptions roundtrip_with_time_margin.
+
+(* the last clause at the level of the interface and with the code's own decoder (the column scan):
+   compute_pianoroll (unit inference, field selection, drum filter, plain mode) followed by
+   pianoroll_to_notearray at the same resolution SUCCEEDS on every array of grid-aligned, non-touching
+   notes and recovers pitch, onset, duration and velocity of every note that is shown *)
+Theorem roundtrip_through_interface : forall c a u ns,
+  resolve_unit a (c_time_unit c) = Some u ->
+  select_rows a u (c_remove_drums c) = Some ns ->
+  let td := match c_time_div c with Some d => d | None => auto_div u end in
+  let o := with_div (c_opts c) td in
+  plain_mode (c_opts c) -> 0 < td -> ns <> [] ->
+  (forall n, In n ns -> grid_aligned td (spec_min_time o ns) n /\ n_vel n <> 0 /\ 0 <= n_pitch n <= 127 /\
+                        (o_piano_range o = true -> 21 <= n_pitch n <= 108)) ->
+  non_touching o (spec_min_time o ns) (lowest_pitch o ns) ns ->
+  exists out ns', roundtrip c a = Some out /\ Permutation ns ns' /\
+    Forall2 (recovered (spec_min_time o ns - inject_Z (o_time_margin o))) out ns'.
+Proof. exact roundtrip_api_lemma. Qed.
+Print Assumptions roundtrip_through_interface.
+
+(* the pitch-class roll in terms of the notes: class c is non-zero at frame j exactly when a note whose
+   pitch is congruent to c modulo 12 sounds during frame j *)
+Theorem pitch_class_nonzero_iff : forall o ns R, make_pianoroll o ns = Some R ->
+  o_pitch_margin o <= -1 -> o_piano_range o = false ->
+  (forall n, In n ns -> 0 < n_vel n) ->
+  forall c j, 0 <= c < 12 ->
+  (pc_cell (r_cells R) c j <> 0 <->
+   exists n, In n ns /\ n_pitch n mod 12 = c /\
+             covers o (spec_min_time o ns) (lowest_pitch o ns) n (n_pitch n) j = true).
+Proof. exact pc_nonzero_lemma. Qed.
+Print Assumptions pitch_class_nonzero_iff.
+
+(* its index rows: (pitch class, onset frame, offset frame, MIDI pitch) of every note, in input order *)
+Theorem pitch_class_index_rows : forall p a R, pc_source p a = Some R ->
+  exists u ns o, select_rows a u true = Some ns /\ make_pianoroll o ns <> None /\
+    o_pitch_margin o = -1 /\ o_piano_range o = false /\
+    r_idx R = map (fun n => (n_pitch n mod 12, fr_on o (spec_min_time o ns) n, fr_off o (spec_min_time o ns) n, n_pitch n)) ns.
+Proof. exact pc_idx_rows_lemma. Qed.
+Print Assumptions pitch_class_index_rows.
+
+(* the decoded rows come in the order the code sorts to: (onset, pitch, offset, velocity) *)
+Theorem decoded_rows_sorted : forall rows cols m,
+  Sorted dn_le (decode_frames rows cols m) /\ Sorted dn_le (scan_frames rows cols m).
+Proof. exact decode_sorted_lemma. Qed.
+Print Assumptions decoded_rows_sorted.
+
+(* the hypotheses of the interface theorems are satisfiable: seconds and beats present, velocity and
+   channel fields, a drum row, rows out of onset order, two notes on one pitch, a time margin *)
+Theorem example_interface :
+  let o := with_div (c_opts api_copts) 4 in
+  resolve_unit api_arr (c_time_unit api_copts) = Some UBeat /\
+  select_rows api_arr UBeat true = Some api_notes /\
+  plain_mode (c_opts api_copts) /\
+  valid_input o api_notes /\
+  non_touching o (spec_min_time o api_notes) (lowest_pitch o api_notes) api_notes /\
+  (forall n, In n api_notes -> grid_aligned 4 (spec_min_time o api_notes) n) /\
+  roundtrip api_copts api_arr =
+    Some [(64, (4 # 4)%Q, (1 # 4)%Q, 33); (60, (5 # 4)%Q, (3 # 4)%Q, 101); (60, (10 # 4)%Q, (2 # 4)%Q, 80)] /\
+  (exists R, compute_pianoroll api_copts api_arr = Some R /\ r_rows R = 128 /\ r_cols R = 16 /\
+             cell_at (r_cells R) 36 5 = 0 /\ cell_at (r_cells R) 60 5 = 101 /\
+             sparse_sum (r_cells R) 60 5 = 101).
+Proof. exact example_api_lemma. Qed.
+Print Assumptions example_interface.
